@@ -39,13 +39,14 @@ pub fn gen_route(r: &mut Rng, profile: usize, min_total: f64, speed_max: f64) ->
 
 /// `clean_start`: no speed restriction begins before this offset; `max_total`: stop adding links beyond this length
 pub fn gen_route_ext(r: &mut Rng, profile: usize, min_total: f64, speed_max: f64, clean_start: f64, max_total: f64) -> Route {
-    let n = match profile { 1 => 12 + r.below(20), 2 => 2 + r.below(3), 3 => 1, _ => 3 + r.below(14) };
+    // profile 4 ("stall"): two long links, a flat run-up and then a sustained 3.5 % up-grade that a heavy train cannot hold
+    let n = match profile { 1 => 12 + r.below(20), 2 => 2 + r.below(3), 3 => 1, 4 => 2, _ => 3 + r.below(14) };
     let mut network = vec![Link::default()];
     let mut total = 0.0;
     let mut i = 0usize;
     let mut n_short = 0; let mut n_long = 0; let mut n_restr = 0; let mut n_noelev = 0;
     while (i < n && total < max_total) || total < min_total {
-        let cat = match profile { 1 => if r.chance(0.8) { 0 } else { 1 }, 2 => 2, 3 => 3, _ => r.below(3) };
+        let cat = match profile { 1 => if r.chance(0.8) { 0 } else { 1 }, 2 | 4 => 2, 3 => 3, _ => r.below(3) };
         let len = match cat {
             0 => { n_short += 1; (r.lrange(2.0, 80.0) * 4.0).round() / 4.0 }
             1 => (r.lrange(100.0, 3000.0)).round(),
@@ -54,7 +55,13 @@ pub fn gen_route_ext(r: &mut Rng, profile: usize, min_total: f64, speed_max: f64
         };
         let idx = network.len() as u32;
         // elevation: piecewise linear, grades within +-2.5 %
-        let elevs: Vec<Elev> = if r.chance(0.08) { n_noelev += 1; vec![] } else {
+        let elevs: Vec<Elev> = if profile == 4 {
+            let e0 = 100.0 + 0.035 * 0.7 * 30000.0 * i as f64; let flat = if i == 0 { 0.3 * len } else { 0.0 };
+            let mut out = vec![Elev { offset: uc::M * 0.0, elev: uc::M * e0 }];
+            if flat > 0.0 { out.push(Elev { offset: uc::M * flat, elev: uc::M * e0 }); }
+            out.push(Elev { offset: uc::M * len, elev: uc::M * (e0 + 0.035 * (len - flat)) });
+            out
+        } else if r.chance(0.08) { n_noelev += 1; vec![] } else {
             let k = if len < 20.0 { 1 } else { 1 + r.below(5) };
             let knots = gen_knots(r, len, k);
             let mut e = r.range(0.0, 500.0);
